@@ -186,6 +186,18 @@ Proof.
   intros H Hp. rewrite <- (timeout_pending_iff_path _ _ _ _ H). unfold timeout_pending. tauto.
 Qed.
 
+(* the same with the entering step spelled out *)
+Theorem timed_out_iff_split tbl cfg es r :
+  urun tbl cfg (uinit cfg) es = Ok r -> ph (fst r) <> PTerminating TTimeout ->
+  (timed_out (fst r) = true <->
+   exists es1 e es2 r1, es = es1 ++ e :: es2 /\ urun tbl cfg (uinit cfg) es1 = Ok r1 /\
+     e = FireInterval /\ ph (fst r1) = PRunning /\ slc_due (k_isl (ck (fst r1))) = true /\
+     timed_out (fst r1) = false /\ will_terminate cfg (hits (fst r1) + 1) = true).
+Proof.
+  intros H Hp. rewrite (timed_out_iff_path tbl cfg es r H Hp).
+  exact (on_path_split tbl cfg (timeout_fire cfg) es (uinit cfg) r H).
+Qed.
+
 (* what entering the path does: the process group is sent the configured termination signal
    (SIGKILL when the grace period is zero, else SIGTERM), unless the child had already been reaped
    (terminate_child returns at once when child.id() is None) *)
@@ -229,6 +241,17 @@ Proof.
   rewrite (urun_iff tbl cfg leak_fire (fun s => UnitTimers.leaked s = true)
              (ustep_leaked tbl cfg) _ _ _ H).
   cbn. intuition discriminate.
+Qed.
+
+Theorem leaked_iff_split tbl cfg es r :
+  urun tbl cfg (uinit cfg) es = Ok r ->
+  (UnitTimers.leaked (fst r) = true <->
+   exists es1 e es2 r1, es = es1 ++ e :: es2 /\ urun tbl cfg (uinit cfg) es1 = Ok r1 /\
+     e = FireLeak /\ ph (fst r1) = PExiting /\ slc_due (lsl (fst r1)) = true /\
+     fds_done (fst r1) = false).
+Proof.
+  intros H. rewrite (leaked_iff_path tbl cfg es r H).
+  exact (on_path_split tbl cfg leak_fire es (uinit cfg) r H).
 Qed.
 
 (* "past the leak timeout": time spent in detect_fd_leaks (phase PExiting) along a history *)
